@@ -104,7 +104,13 @@ def check_instance(t, cl, term, inst, origterm, forms, versions_for, labels):
                 if not close and stage != "serialize" and unclosed_empty_aggregate(data, term):
                     t.fail(f"C01|{fname}|empty-aggregate-written-without-end-tag", case, f"{cname} {labels}: {type(e).__name__}: {str(e)[:200]}")
                     continue
-                t.fail(f"C01|{fname}|{cname}|{stage}-raises-{type(e).__name__}", case, f"{labels}: {type(e).__name__}: {str(e)[:300]}")
+                # an "out of order" refusal names the class whose definition is at fault: key the failure by that class
+                # (it may sit below the root), so that the same defect has the same signature wherever it is nested
+                import re as _re
+
+                m = _re.search(r"class spec for (\w+)", str(e))
+                where = m.group(1) if m else cname
+                t.fail(f"C01|{fname}|{where}|{stage}-raises-{type(e).__name__}", case, f"{cname} {labels}: {type(e).__name__}: {str(e)[:300]}")
                 continue
             d = S.diff_terms(origterm, S.inst_to_term(back))
             if d:
